@@ -611,7 +611,7 @@ def leaf_line_from_json(j: Dict[str, Any]) -> str:
 
 # ================================================================= part 3: whole runs through every input class
 
-EXCLUDED_KINDS = {'tc_any_rf', 'tc_std_rf', 'tc_any_rn', 'tc_std_rn', 'tc_any_rf2', 'tc_std_rf2', 'tc_any_rn2', 'tc_std_rn2'}
+EXCLUDED_KINDS = {'tc_any_rf', 'tc_std_rf', 'tc_any_rn', 'tc_std_rn', 'tc_any_rf2', 'tc_std_rf2', 'tc_any_rn2', 'tc_std_rn2', 'tc_type_std_rf', 'tc_type_any_rn'}
 EXCLUDED_NOTE = ("try_catch_any_* / try_catch_std_* are left out of the C07 corpus: they catch std::overflow_error and turn the permitted "
                  "deviation into a local failure or a nested parse_error by design")
 
